@@ -514,3 +514,13 @@ Theorem seek_bookmarks_canonical : forall L ns es Ins Rem q,
   (exists p', npos_seek_forward q p i = Ok p' /\ PosAt q p' i) /\
   (exists p', npos_seek_backward q p i = Ok p' /\ PosAt q p' i).
 Proof. exact seek_bookmarks_lemma. Qed.
+
+(* the position machine alone is total: every history of next / prev / set_null / seek_forward /
+   seek_backward (the seeks issued as tsk_tree_seek_from_null issues them: from the null state, to
+   an existing tree) returns a position — no out-of-bounds index, no failed assertion, no fuel
+   exhaustion — and that position is null or canonical on an existing tree *)
+Theorem pos_run_total : forall L ns es Ins Rem q,
+  valid_edgesb L ns es = true -> index_sorted es Ins Rem -> mk_tseq L ns es Ins Rem = Ok q ->
+  forall ops p, n_index p = -1 \/ (exists i, PosAt q p i) ->
+  exists p', pos_run q p ops = Ok p' /\ (n_index p' = -1 \/ exists i, PosAt q p' i).
+Proof. exact pos_run_total_lemma. Qed.
